@@ -137,6 +137,19 @@ pub fn c14(a: &Args) {
         let delay = if r % 3 == 0 { None } else { Some(rng.next()) };
         jobs_list.push((r, model_path, n, lines, j, with_exit, delay));
     }
+    // short batches of cheap requests with many workers: the last answer arrives while the main loop
+    // reads `exit` / end of input (the answers of that round must still be printed)
+    {
+        let (f, _) = pick_model(&mut rng, 4);
+        let small = write_model(&a.out, "tail", &f);
+        let tails = if a.thorough() { 900 } else { 240 };
+        for t in 0..tails {
+            let nlines = 1 + rng.below(8);
+            let lines: Vec<String> = (0..nlines).map(|_| if rng.chance(0.5) { "count".to_string() } else { format!("sat a {}", 1 + rng.below(f.n as usize)) }).collect();
+            let j = *rng.pick(&[4usize, 8, 16, 24, 32, 32]);
+            jobs_list.push((runs + t, small.clone(), f.n, lines, j, t % 2 == 0, None));
+        }
+    }
     let outdir = a.out.clone();
     let par = 6;
     let chunks: Vec<Vec<_>> = (0..par).map(|k| jobs_list.iter().filter(|x| x.0 % par == k).cloned().collect()).collect();
